@@ -383,6 +383,12 @@ def run_once(sc, fault):
             _run_process(t, sc, fault, obs)
     finally:
         Sim.log = None
+    # the private directory's name differs from process to process: keep it out of outcomes and digests
+    wdir = fsseam.work_dir()
+    if isinstance(obs.get('stderr'), str):
+        obs['stderr'] = obs['stderr'].replace(wdir, '<W>')
+    if obs.get('outcome'):
+        obs['outcome'] = [x.replace(wdir, '<W>') if isinstance(x, str) else x for x in obs['outcome']]
     first_fail, pulls_after, writes_after = analyse_log(log)
     obs['first_fail'] = first_fail is not None
     obs['pulls_after_fail'] = pulls_after
